@@ -184,3 +184,37 @@ def run_native_inodes(d, model, mode_args):
             out[f] = True
     shutil.rmtree(root, ignore_errors=True)
     return out
+
+
+def validate_pp_samples(native, samples, limit=6):
+    """replay sampled whole-file paths with the real binary and compare with what mirsym computed on that path"""
+    from .common import _lookup
+    ok_n, bad = 0, []
+    for smp in samples:
+        nc = (smp.get('notes') or {}).get('native_check')
+        if not nc or nc.get('kind') != 'pp':
+            continue
+        if ok_n + len(bad) >= limit:
+            break
+        d = nc['data']
+        try:
+            names = set()
+            for key in ('source', 'inc'):
+                names |= {x for x in d.get(key, []) if not isinstance(x, int)}
+            for _, o in d.get('cmd_results', []):
+                names |= {x for x in o if not isinstance(x, int)}
+            names |= {x for x in (nc.get('out') or []) if not isinstance(x, int)}
+            model = {nm: _lookup(smp['model'], nm) for nm in names}
+        except (KeyError, IndexError):
+            continue
+        nat = run_native(d, model, trailing=d.get('trailing', True))
+        want_ok = nc['ok']
+        got_ok = nat['rc'] == 0
+        if got_ok != want_ok:
+            bad.append('verdict: native rc=%s, interpreter %s on %r' % (nat['rc'], want_ok, conc(d['source'], model)))
+            continue
+        if want_ok and nc.get('out') is not None and nat['output'] != conc(nc['out'], model):
+            bad.append('output: native %r, interpreter %r on %r' % (nat['output'], conc(nc['out'], model), conc(d['source'], model)))
+            continue
+        ok_n += 1
+    return ok_n, bad
